@@ -428,6 +428,29 @@ func runC21(c *Ctx) {
 }
 
 func runC23(c *Ctx) {
+	// the staging buffer's base offset stays a multiple of the source granularity: chunk
+	// slots are computed from it
+	if of := c.field("offset-aligned", "mem/datamover", "bufferState", "Offset"); of != nil {
+		n := 0
+		for _, fn := range c.P.SrcFuncs(func(pp string) bool { return pp == pkgPath("mem/datamover") }) {
+			for _, b := range fn.Blocks {
+				for _, in := range b.Instrs {
+					st, ok := in.(*ssa.Store)
+					if !ok {
+						continue
+					}
+					if fo := FieldOf(st.Addr); fo == nil || !sameObj(fo, of) {
+						continue
+					}
+					n++
+					c.Check(lineAligned(c.P, fn, st.Val, 0, map[*types.Var]bool{}), "offset-aligned", SSAFuncKey(fn)+"@Buffer.Offset", st.Pos(), "the offset is assigned a granularity-aligned value",
+						"the staging buffer's base offset is assigned "+VKey(st.Val)+", which is not rounded down to the source granularity: chunk slots are computed relative to it, so with granularities that are not multiples of each other later chunks are filed into the wrong slot, destination writes are assembled from the wrong bytes and bytes beyond the range are written")
+				}
+			}
+		}
+		c.Check(n >= 2, "offset-aligned", "instances", 0, "offset stores found", "fewer than two stores of the buffer offset found")
+	}
+
 	// read admission: a source read is issued exactly when the transfer is active, the
 	// chunk starts inside the staging window and inside the requested range, and the
 	// source port can send
@@ -809,6 +832,21 @@ func lineAligned(p *Program, fn *ssa.Function, v ssa.Value, depth int, seen map[
 		return len(x.Edges) > 0
 	case *ssa.Const:
 		return x.Value != nil && x.Value.String() == "0"
+	case *ssa.Call:
+		if x.Common().StaticCallee() == nil {
+			return false
+		}
+		callee := origin(x.Common().StaticCallee())
+		n := 0
+		for _, b := range callee.Blocks {
+			if ret, isRet := b.Instrs[len(b.Instrs)-1].(*ssa.Return); isRet && len(ret.Results) == 1 {
+				n++
+				if !lineAligned(p, callee, ret.Results[0], depth+1, seen) {
+					return false
+				}
+			}
+		}
+		return n > 0
 	case *ssa.Extract:
 		call, ok := x.Tuple.(*ssa.Call)
 		if !ok || call.Common().StaticCallee() == nil {
